@@ -347,21 +347,78 @@ std::string job_c13uf(const Args& a) {
       int k = r.below(10);
       plan[t].push_back({k < 6 ? 0 : (k < 8 ? 1 : 2), (int)r.below(nElem), (int)r.below(nElem)});
     }
+  // sequential prelude: trees of some height exist before the threads start (equal-rank roots whose
+  // ids differ from the elements the threads name)
+  std::vector<std::array<int, 2>> prelude;
+  const int shape = (int)a.i("shape", 0);
+  if (shape > 0) {
+    // a random perfect matching (rank-1 trees of two), for shape 2 matched again (rank-2 trees of four):
+    // many roots of equal rank for the threads to merge concurrently
+    std::vector<int> perm(nElem);
+    std::iota(perm.begin(), perm.end(), 0);
+    for (int i = nElem - 1; i > 0; i--) std::swap(perm[i], perm[r.below(i + 1)]);
+    for (int i = 0; i + 1 < nElem; i += 2) prelude.push_back({perm[i], perm[i + 1]});
+    if (shape > 1)
+      for (int i = 0; i + 3 < nElem; i += 4) prelude.push_back({perm[i + r.below(2)], perm[i + 2 + r.below(2)]});
+    for (int t = 0; t < nThreads; t++)
+      for (auto& o : plan[t]) {
+        o[0] = r.below(10) < 7 ? 0 : 1;
+        if (o[1] == o[2]) o[2] = (o[1] + 1 + (int)r.below(nElem - 1)) % nElem;
+      }
+  }
+  for (int i = 0, n = (int)a.i("prelude", 0); i < n; i++) prelude.push_back({(int)r.below(nElem), (int)r.below(nElem)});
+  const std::string planx = a.s("planx", "");
+  if (!planx.empty()) {
+    // explicit plan: "u0-3,u1-2|u0-1|u3-2" = prelude | thread 0 | thread 1 ...
+    prelude.clear();
+    plan.clear();
+    auto segs = split(planx, '|');
+    for (size_t si = 0; si < segs.size(); si++) {
+      std::vector<std::array<int, 3>> ops;
+      for (auto& tok : split(segs[si], ',')) {
+        if (tok.size() < 4) continue;
+        auto dash = tok.find('-');
+        if (dash == std::string::npos) continue;
+        ops.push_back({tok[0] == 'u' ? 0 : (tok[0] == 'f' ? 1 : 2), atoi(tok.substr(1, dash - 1).c_str()), atoi(tok.substr(dash + 1).c_str())});
+      }
+      if (si == 0)
+        for (auto& o : ops) prelude.push_back({o[1], o[2]});
+      else
+        plan.push_back(ops);
+    }
+  }
   std::string mism;
   std::string planText;
-  for (int t = 0; t < nThreads; t++) {
+  if (!prelude.empty()) {
+    planText += "P:";
+    for (auto& o : prelude) planText += "u" + std::to_string(o[0]) + "-" + std::to_string(o[1]) + " ";
+  }
+  const int nThreadsEff = (int)plan.size();
+  for (int t = 0; t < nThreadsEff; t++) {
     planText += "T" + std::to_string(t) + ":";
     for (auto& o : plan[t]) planText += (o[0] == 0 ? "u" : o[0] == 1 ? "f" : "s") + std::to_string(o[1]) + "-" + std::to_string(o[2]) + " ";
   }
   SimOutcome out = run_simulated(s, [&]() {
     DisjointSets ds(nElem);
-    std::vector<std::vector<long>> res(nThreads);
-    std::vector<UFArgs> args(nThreads);
-    for (int t = 0; t < nThreads; t++) {
+    for (auto& o : prelude) ds.unite(o[0], o[1]);
+    std::vector<std::vector<long>> res(nThreadsEff);
+    std::vector<UFArgs> args(nThreadsEff);
+    for (int t = 0; t < nThreadsEff; t++) {
       args[t] = {&ds, &plan[t], &res[t]};
       sim::client(uf_thread, &args[t]);
     }
     sim::join_clients();
+    // at quiescence the structure is a forest: following parents from any element reaches a fixed
+    // point (checked on the raw parents, before any find() of this thread can repair anything)
+    for (int i = 0; i < nElem && mism.empty(); i++) {
+      uint32_t x = (uint32_t)i;
+      int steps = 0;
+      while (ds.parent(x) != x && steps <= nElem) {
+        x = ds.parent(x);
+        steps++;
+      }
+      if (steps > nElem) mism = "parent_cycle_at_quiescence(" + std::to_string(i) + ")";
+    }
     // sequential spec: naive union of all unite pairs
     std::vector<int> comp(nElem);
     std::iota(comp.begin(), comp.end(), 0);
@@ -369,6 +426,10 @@ std::string job_c13uf(const Args& a) {
       while (comp[x] != x) x = comp[x];
       return x;
     };
+    for (auto& o : prelude) {
+      int x = findN(o[0]), y = findN(o[1]);
+      if (x != y) comp[x] = y;
+    }
     for (auto& th : plan)
       for (auto& o : th)
         if (o[0] == 0) {
@@ -390,7 +451,7 @@ std::string job_c13uf(const Args& a) {
       }
     // every find/unite result is a member of the caller's final class; a
     // `same` that returned true must be true in the final partition
-    for (int t = 0; t < nThreads && mism.empty(); t++)
+    for (int t = 0; t < nThreadsEff && mism.empty(); t++)
       for (size_t i = 0; i < plan[t].size(); i++) {
         auto& o = plan[t][i];
         long v = res[t][i];
